@@ -93,3 +93,55 @@ V("C17-gnorms-from-clamped-local", ["C17", "C01"], "gmm", SETTER_V,
         self._g_norms = v.shape[-1] * np.log(2 * np.pi) + np.log(v).sum(axis=-1)
         self._variances = v""",
   "normaliser computed from the clamped local before the store", kind="benign")
+
+# ----------------------------------------------------------------------------- C18
+V("C18-threshold-constant", ["C18"], "gmm",
+  "convergence_threshold=hdf5['convergence_threshold'][()] if 'convergence_threshold' in hdf5 else None",
+  "convergence_threshold=1e-05", "revert of fix c8c8800: threshold restored from a constant")
+V("C18-trainer-undereferenced", ["C18"], "gmm",
+  "        if trainer == 'map' and ubm is None:",
+  "        if hdf5['trainer'] == 'map' and ubm is None:", "revert of fix b309f63 (part): Dataset compared to a string")
+V("C18-trainer-undecoded", ["C18"], "gmm",
+  "            trainer = hdf5['trainer'][()]\n            if isinstance(trainer, bytes):\n                trainer = trainer.decode()\n",
+  "            trainer = hdf5['trainer'][()]\n", "revert of fix b309f63 (part): trainer stays bytes, MAP reloads as ML")
+V("C18-variances-before-floors", ["C18"], "gmm",
+  "            self.variance_thresholds = gaussians_group['variance_thresholds'][...]\n            self.means = gaussians_group['means'][...]\n            self.variances = gaussians_group['variances'][...]",
+  "            self.means = gaussians_group['means'][...]\n            self.variances = gaussians_group['variances'][...]\n            self.variance_thresholds = gaussians_group['variance_thresholds'][...]",
+  "revert of fix aeb7501: variances assigned before floors")
+V("C18-save-none-unguarded", ["C18"], "gmm",
+  "        if self.max_fitting_steps is not None:\n            hdf5['max_fitting_steps'] = self.max_fitting_steps",
+  "        hdf5['max_fitting_steps'] = self.max_fitting_steps", "revert of fix cd01cac (part): None stored unguarded")
+V("C18-read-none-unguarded", ["C18"], "gmm",
+  "max_fitting_steps=hdf5['max_fitting_steps'][()] if 'max_fitting_steps' in hdf5 else None",
+  "max_fitting_steps=hdf5['max_fitting_steps'][()]", "reader reads an omitted key unconditionally")
+V("C18-key-dropped", ["C18"], "gmm",
+  ", update_weights=hdf5['update_weights'][()])", ")", "reader no longer restores update_weights (constructor default)")
+V("C18-key-crossed", ["C18"], "gmm",
+  "update_variances=hdf5['update_variances'][()]", "update_variances=hdf5['update_means'][()]", "update_means read into update_variances")
+V("C18-deref-dropped", ["C18"], "gmm",
+  "update_means=hdf5['update_means'][()]", "update_means=hdf5['update_means']", "dataset object stored as a switch (always truthy)")
+V("C18-means-not-restored", ["C18"], "gmm",
+  "            self.means = gaussians_group['means'][...]\n            self.variances = gaussians_group['variances'][...]\n        else:",
+  "            self.variances = gaussians_group['variances'][...]\n        else:", "means never restored")
+V("C18-initfields-crossed", ["C18"], "gmm",
+  "self.init_fields(new_self.log_likelihood, new_self.t, new_self.n, new_self.sum_px, new_self.sum_pxx)",
+  "self.init_fields(new_self.log_likelihood, new_self.t, new_self.n, new_self.sum_pxx, new_self.sum_px)", "first and second order statistics crossed in load")
+V("C18-resize-after", ["C18"], "gmm",
+  "        if new_self.shape != self.shape:\n            logger.warning('Loaded GMMStats from hdf5 with a different shape.')\n            self.resize(*new_self.shape)\n        self.init_fields(new_self.log_likelihood, new_self.t, new_self.n, new_self.sum_px, new_self.sum_pxx)",
+  "        self.init_fields(new_self.log_likelihood, new_self.t, new_self.n, new_self.sum_px, new_self.sum_pxx)\n        if new_self.shape != self.shape:\n            logger.warning('Loaded GMMStats from hdf5 with a different shape.')\n            self.resize(*new_self.shape)",
+  "resize wipes the loaded statistics when shapes differ")
+V("C18-stats-key-crossed", ["C18"], "gmm",
+  "            self.sum_pxx = hdf5['sumPxx'][...]", "            self.sum_pxx = hdf5['sumPx'][...]", "sum_pxx restored from the sumPx key")
+V("C18-stats-t-dropped", ["C18"], "gmm",
+  "            self.t = hdf5['T'][()]\n", "", "sample count not restored")
+V("C18-legacy-thresholds-dropped", ["C18"], "gmm",
+  "            self.variance_thresholds = np.array(g_variance_thresholds).reshape(n_gaussians, -1)\n", "", "legacy arm drops the floors")
+V("C18-reader-local", ["C18"], "gmm",
+  "update_means=hdf5['update_means'][()]", "update_means=bool(hdf5['update_means'][()])", "extra conversion of a switch", kind="benign")
+V("C18-reader-reordered", ["C18"], "gmm",
+  "            self.variance_thresholds = gaussians_group['variance_thresholds'][...]\n            self.means = gaussians_group['means'][...]\n            self.variances = gaussians_group['variances'][...]",
+  "            self.means = gaussians_group['means'][...]\n            self.variance_thresholds = gaussians_group['variance_thresholds'][...]\n            self.variances = gaussians_group['variances'][...]",
+  "means first, floors still before variances", kind="benign")
+V("C18-trainer-asstr", ["C18"], "gmm",
+  "            trainer = hdf5['trainer'][()]\n            if isinstance(trainer, bytes):\n                trainer = trainer.decode()\n",
+  "            trainer = hdf5['trainer'].asstr()[()]\n", "decode with asstr()", kind="benign")
